@@ -109,7 +109,7 @@ def read_hlog_fields(path):
     return out
 
 
-def write_header(path, pte_entries=(), hlog_fields=(), static=True, brace_same_line=False):
+def write_header(path, pte_entries=(), hlog_fields=(), static=True, brace_same_line=False, end_line='};', decoy=False):
     """pte_entries: [(pattern, raw C message text, params list)]; hlog_fields: [(name, size)]"""
     L = ['// synthetic header written by the verification harness', '', '#define MAX_PTE_LENGTH 9',
          'struct pte_entry_struct', '{', '  char key[MAX_PTE_LENGTH];', '  char format[150];', '  uint8_t params[2];',
@@ -131,6 +131,9 @@ def write_header(path, pte_entries=(), hlog_fields=(), static=True, brace_same_l
         L += [start, '{']
     for name, size in hlog_fields:
         L.append('  { %d, "%s" }, ' % (size, name))
-    L += ['};', '']
+    L += [end_line, '']
+    if decoy:
+        # another array of the same struct type behind the table: its entries are not history-log fields
+        L += ['static struct mex_hlog_field mex_hlog_spare_fields[2] =', '{', '  { 1, "spare_a" },', '  { 2, "spare_b" },', '};', '']
     with open(path, 'w', encoding='utf-8') as f:
         f.write('\n'.join(L))
